@@ -239,19 +239,45 @@ class C11:
                     'spherical_aberration': rng.choice([
                         own(0.1),
                         [own(0.1), 0.2]])}}
+        if isinstance(th, dict) and rng.random() < 0.5:
+            # a fixed (non-prior) theory option: must be left untouched
+            th['options']['calculator_accuracy_kwargs'] = {
+                'dict': [['quad_npts', rng.choice([60, 80])]]}
         margs = {'kind': mk, 'sc': sc, 'optics': optics, 'th': th}
         if mk == 'alpha':
             margs['alpha'] = own(0.8)
         mo = b.emit('model', margs, store='mo', tags={'k': 'model'})
-        b.emit('model_probe', {'mo': mo, 'seed': rng.randrange(1000)},
+        seed0 = rng.randrange(1000)
+        b.emit('model_probe', {'mo': mo, 'seed': seed0},
                tags={'k': 'probe', 'probe': True})
+        # a sibling model in the same session: the same description (same
+        # prior objects) except for *fixed* values.  Each model must keep its
+        # own fixed values whatever the other was asked before.
+        mo2 = None
+        if rng.random() < 0.4:
+            import copy
+            margs2 = copy.deepcopy(margs)
+            if isinstance(margs2['th'], dict):
+                margs2['th']['options']['calculator_accuracy_kwargs'] = {
+                    'dict': [['quad_npts', rng.choice([30, 40])]]}
+            if not isinstance(margs2['optics'].get('medium_index'), dict):
+                margs2['optics']['medium_index'] = 1.36
+            margs2['optics']['illum_polarization'] = [0, 1]
+            mo2 = b.emit('model', margs2, store='mo2', tags={'k': 'model'})
+            for m_ in rng.sample([mo2, mo, mo2], rng.randint(1, 3)):
+                b.emit('model_probe', {'mo': m_, 'seed': seed0},
+                       tags={'k': 'probe', 'probe': True})
         nsave = 0
         ntie = 0
         for _ in range(rng.randint(4, 22)):
             c = rng.random()
             if c < 0.3:
-                b.emit('model_probe', {'mo': mo, 'seed': rng.randrange(1000)},
+                sd_ = rng.randrange(1000)
+                b.emit('model_probe', {'mo': mo, 'seed': sd_},
                        tags={'k': 'probe', 'probe': True})
+                if mo2 is not None and rng.random() < 0.5:
+                    b.emit('model_probe', {'mo': mo2, 'seed': sd_},
+                           tags={'k': 'probe', 'probe': True})
             elif c < 0.55:
                 k = rng.choice([1, 2, 2, 2, 3, 4, 5])
                 idx = rng.sample(range(24), k)
